@@ -193,6 +193,9 @@ V_ExtParse(e) ==
                 ELSE IF e.res.v.version # q.version THEN "extparse-version"
                 ELSE IF e.inp.form = "stream-offset" /\ e.res.v.pos # e.inp.offset + 78 THEN "extparse-stream-position"
                 ELSE IF e.res.v.again # str /\ (IsMaster(want) => IsZero(q.pfp)) THEN "extparse-reserialise-differs"
+                ELSE IF "copies" \in DOMAIN e.res.v
+                        /\ \E j \in 1..Len(e.res.v.copies) : e.res.v.copies[j].s # e.res.v.again \/ ~e.res.v.copies[j].equal
+                     THEN "extparse-copied-node-differs"
                 ELSE "ok"
 
 \* e.inp = [s]; e.res.v = [net, watch_only, node, bip85]
